@@ -51,7 +51,7 @@ def collapse_probe(res, rng, tier, bad):
         zl = [2.0] * 100; zl[20] = 1e-12; zl[50] = 1e-12
         integ = ["exp", "rk4"][k % 2]
         tr = mudslide.AugmentedFSSH(M[mname](), [-3.0], [12.0], 0, dt=10.0, max_steps=80, tracer=tracer, zeta_list=zl, seed_sequence=rng.randrange(2 ** 31),
-                                    augmented_integration=integ)
+                                    augmented_integration=integ, trace_every=[1, 3, 7][k % 3])
         state = {"collapsed": 0, "recorded": 0}
         orig_rec = tracer.record_event
         def rec(et, ed, orig_rec=orig_rec, state=state):
